@@ -24,7 +24,12 @@ LEVEL_TEXT = ("Lean 4 theorems, for every network / tree / removed-index set: th
               "alone (legs_get_eq_spec, size_eq_spec, flops_eq_spec), slicing divides exactly the carrying "
               "nodes (slice_size/slice_flops), totals = definition x multiplicity (stats_eq_spec). The model "
               "is tied to /repo on every run by equality correspondence of every node's figures, totals, "
-              "multiplicity and peak_size(order), and observed intermediate shapes are compared with get_size.")
+              "multiplicity and peak_size(order), and observed intermediate shapes are compared with get_size. "
+              "peak_size(order) equals, for every children-first order, the independent definition of peak "
+              "memory along the schedule (inputs live at the start; each step needs all live tensors and its "
+              "output; operands die): peak_eq_spec via the invariant 'running total = size of the live multiset' "
+              "(peakFold_eq), and max_size <= peak for every order (max_size_le_peak); the definition is also "
+              "evaluated on the real traversal orders on every run.")
 LEVEL_NOTE = ("Trusted: Lean kernel; the hand-written model (validated only on the generated cases); the "
               "harness canonicalisation; numpy for the observed shapes. Guard: output indices occur in some input.")
 TECHNIQUE = "Lean 4 proof (structural induction, L1 leaf-set lemma) + differential correspondence with core.py"
@@ -38,6 +43,10 @@ THEOREMS = [
     "Cotengra.C03.slice_size",
     "Cotengra.C03.slice_flops",
     "Cotengra.C03.stats_eq_spec",
+    "Cotengra.Net.peakFold_eq",
+    "Cotengra.C03.peak_eq_spec",
+    "Cotengra.C03.peak_running_total_final",
+    "Cotengra.C03.max_size_le_peak",
 ]
 TRUSTED = [
     "Lean 4.33 kernel; axioms ⊆ {propext, Classical.choice, Quot.sound}",
@@ -252,6 +261,15 @@ def check_case(ctx, drv, case):
     resp2 = drv.call("c03.nodes", net=case["net"], removed=removed, sliced=sliced, tree=obs["bt"],
                      order=obs["peaks"][0]["seq"])
     ok = ok and resp2.get("peak") == obs["peaks"][0]["peak"]
+    # the independent definition of peak memory (C03.peak_eq_spec) evaluated on the REAL traversal orders: must
+    # give the reported peak, and the schedule must consume every tensor but the root exactly once
+    # (the hypothesis `ChildrenFirst` of the theorem, observed on the real order)
+    for r, pk in ((resp, obs["peaks"][1]), (resp2, obs["peaks"][0])):
+        if "peak_spec" in r:
+            ctx.count("peak:definition-evaluated")
+            if r["peak_spec"] != pk["peak"] or (len(net.inputs) >= 2 and r.get("live_at_end") != 1):
+                ok = False
+                ctx.count("peak:definition-differs")
     ctx.traces += 1
     if not ok:
         ctx.corr_broken("model and implementation disagree on node rows / totals / peak", case)
